@@ -28,6 +28,9 @@
 #include <random>
 #include <algorithm>
 #include <unistd.h>
+#include <atomic>
+#include <signal.h>
+#include <time.h>
 #include <cstdarg>
 #include <sqlite3.h>
 using namespace llbuild;
@@ -37,6 +40,8 @@ extern "C" { extern void (*llbuild_verif_engine_hook)(int point, const void* dat
 
 struct RuleDef {
   uint64_t sig = 0; bool obs = true; std::vector<int> req, single, follow, brA, brB, disc, prq; int brslot = -1; bool defined = false; std::string ord = "rsf";
+  int proc_ms = -1;   // proc=<ms>: the task computes by running `sleep <ms>` as a real child on the engine's execution queue (TaskInterface::spawn)
+  int bad = 0;        // bad=1: start() requests a RESERVED input id (engine-internal failure); bad=2: the same, from provideValue
 };
 static std::map<int, RuleDef> g_pending, g_defs;     // pending: as written so far; defs: snapshot seen by the current engine
 static std::map<int, uint64_t> g_env;
@@ -76,6 +81,8 @@ static Sched g_sched = SYNC; static std::mt19937 g_rng; static unsigned g_maxus 
 struct Pending { int k; TaskInterface ti; ValueType v; std::vector<int> disc; };
 static std::vector<Pending> g_pend; static std::mutex g_pm;
 static std::vector<std::thread> g_threads;
+static bool g_lanes = false;                        // "queue lanes": the delegate hands the engine a lane based queue (2 lanes) instead of the serial one
+static std::mutex g_pidm; static std::vector<long> g_pids;
 static long g_cancel_iter = -1, g_cancel_cb = -1, g_iter = 0, g_cb = 0; static bool g_cancel_sent = false;
 
 static void finish(Pending& p) {
@@ -136,6 +143,7 @@ struct DTask : Task {
       else if (c == 's') for (size_t j = 0; j < nsingle; j++) ti.requestSingleUse(kname(d.single[j]), nreq + j);
       else if (c == 'f') for (int r : d.follow) ti.mustFollow(kname(r));
     }
+    if (d.bad == 1) ti.request(kname(k + 1000), BuildEngine::kMaximumInputID + 1);
   }
   void providePriorValue(TaskInterface ti, const ValueType& v) override {
     ev("prior %d %s", k, vs(v).c_str()); count_cb();
@@ -146,6 +154,7 @@ struct DTask : Task {
   void provideValue(TaskInterface ti, uintptr_t id, const KeyType& key, const ValueType& v) override {
     ev("provide %d %lu %d %s", k, (unsigned long)id, kid(key.str()), vs(v).c_str());
     if (id < slots.size()) slots[id] = dec(v);
+    if (d.bad == 2) { d.bad = 0; ti.request(kname(k + 1000), BuildEngine::kMaximumInputID + 1); }
     if (!branched && d.brslot >= 0 && (int)id == d.brslot && d.brslot < (int)d.req.size()) {
       branched = true;
       for (int r : (slots[id].p % 2 == 0 ? d.brA : d.brB)) req(ti, r, false);
@@ -162,6 +171,22 @@ struct DTask : Task {
     if (k % 3 == 0) h = h % 2;
     Pending p{k, ti, enc(h, obs), d.disc};
     if (g_quiet) g_freshvals[k] = vs(p.v);
+    if (d.proc_ms >= 0 && !g_quiet) {
+      struct JD : basic::JobDescriptor {
+        llvm::StringRef getOrdinalName() const override { return "proc"; }
+        void getShortDescription(llvm::SmallVectorImpl<char>& r) const override {}
+        void getVerboseDescription(llvm::SmallVectorImpl<char>& r) const override {}
+      };
+      static JD jd; int ms = d.proc_ms; int kk = k;
+      ti.spawn(basic::QueueJob{&jd, [ti, p, ms, kk](basic::QueueJobContext* ctx) mutable {
+        char buf[32]; snprintf(buf, sizeof buf, "%d.%03d", ms / 1000, ms % 1000);
+        std::vector<llvm::StringRef> cmd{"/bin/sleep", buf};
+        basic::ProcessStatus st = ti.spawn(ctx, cmd);
+        ev("procdone %d %s", kk, st == basic::ProcessStatus::Succeeded ? "succeeded" : st == basic::ProcessStatus::Cancelled ? "cancelled" : st == basic::ProcessStatus::Failed ? "failed" : "skipped");
+        finish(p);
+      }});
+      return;
+    }
     if (g_sched == SYNC || g_quiet) { finish(p); return; }
     if (g_sched == THREADS) {
       int us; { std::lock_guard<std::mutex> g(g_pm); us = g_maxus ? g_rng() % g_maxus : 0; }
@@ -194,13 +219,16 @@ struct Del : BuildEngineDelegate, basic::ExecutionQueueDelegate {
     std::string s = "cycle"; for (auto* r : items) s += " " + std::to_string(kid(r->key.str())); ev("%s", s.c_str());
   }
   void error(const llvm::Twine& m) override { std::string t = m.str(); for (auto& c : t) if (c == '\n') c = ' '; ev("error %s", t.c_str()); }
-  void processStarted(basic::ProcessContext*, basic::ProcessHandle, llbuild_pid_t) override {}
+  void processStarted(basic::ProcessContext*, basic::ProcessHandle, llbuild_pid_t pid) override { std::lock_guard<std::mutex> g(g_pidm); g_pids.push_back((long)pid); }
   void processHadError(basic::ProcessContext*, basic::ProcessHandle, const llvm::Twine&) override {}
   void processHadOutput(basic::ProcessContext*, basic::ProcessHandle, llvm::StringRef) override {}
   void processFinished(basic::ProcessContext*, basic::ProcessHandle, const basic::ProcessResult&) override {}
   void queueJobStarted(basic::JobDescriptor*) override {}
   void queueJobFinished(basic::JobDescriptor*) override {}
-  std::unique_ptr<basic::ExecutionQueue> createExecutionQueue() override { return createSerialQueue(*this, nullptr); }
+  std::unique_ptr<basic::ExecutionQueue> createExecutionQueue() override {
+    if (g_lanes) return std::unique_ptr<basic::ExecutionQueue>(basic::createLaneBasedExecutionQueue(*this, 2, basic::SchedulerAlgorithm::NamePriority, basic::QualityOfService::Normal, nullptr));
+    return createSerialQueue(*this, nullptr);
+  }
 };
 
 static std::vector<int> ints(const std::string& s) { std::vector<int> r; if (s.empty()) return r; for (auto& x : split(s, ',')) if (!x.empty()) r.push_back(atoi(x.c_str())); return r; }
@@ -294,6 +322,8 @@ int main(int argc, char** argv) {
         else if (a == "disc") d.disc = ints(b);
         else if (a == "ord" && b.size() == 3) d.ord = b;
         else if (a == "prq") d.prq = ints(b);
+        else if (a == "proc") d.proc_ms = atoi(b.c_str());
+        else if (a == "bad") d.bad = atoi(b.c_str());
         else if (a == "br") { SV p = split(b, ':'); d.brslot = atoi(p[0].c_str()); d.brA = ints(p.size() > 1 ? p[1] : ""); d.brB = ints(p.size() > 2 ? p[2] : ""); }
       }
       g_pending[k] = d;
@@ -301,6 +331,7 @@ int main(int argc, char** argv) {
     else if (t[0] == "set") g_env[atoi(t[1].c_str())] = strtoull(t[2].c_str(), 0, 10);
     else if (t[0] == "db") { usedb = t[1] != "0"; if (t[1] == "1" && !started) unlink(dbpath.c_str()); }   // db 2: attach to the existing file
     else if (t[0] == "recreate") recreate = t[1] == "1";
+    else if (t[0] == "queue") g_lanes = t[1] == "lanes";
     else if (t[0] == "schema") schema = atoi(t[1].c_str());
     else if (t[0] == "restart") { newengine(usedb); started = true; printf("restart\n"); }
     else if (t[0] == "foreign") {
@@ -339,11 +370,27 @@ int main(int argc, char** argv) {
       printf("build %d %s\n", ++nbuild, t[1].c_str());
       e->resetForBuild();
       std::thread canceller;
-      if (cancel_us >= 0) canceller = std::thread([=]() { usleep(cancel_us); g_cancel_sent = true; g_engine->cancelBuild(); });
+      // watchdog=<ms> (with cancel=thread): if build() has not returned <ms> after the cancellation was sent, say so and kill the children
+      // the engine started (so that the scenario ends); a build that needs this help did not honour the cancellation
+      long watchdog_ms = -1; for (size_t i = 2; i < t.size(); i++) if (t[i].compare(0, 9, "watchdog=") == 0) watchdog_ms = atol(t[i].c_str() + 9);
+      std::atomic<bool> returned{false};
+      { std::lock_guard<std::mutex> g(g_pidm); g_pids.clear(); }
+      struct timespec t0; clock_gettime(CLOCK_MONOTONIC, &t0);
+      if (cancel_us >= 0) canceller = std::thread([=, &returned]() {
+        usleep(cancel_us); g_cancel_sent = true; ev("cancel-sent thread"); g_engine->cancelBuild();
+        if (watchdog_ms >= 0) {
+          for (long w = 0; w < watchdog_ms && !returned; w += 10) usleep(10000);
+          if (!returned) { ev("WATCHDOG build() did not return within %ld ms of cancelBuild()", watchdog_ms);
+            std::lock_guard<std::mutex> g(g_pidm); for (long pid : g_pids) kill((pid_t)pid, SIGKILL); }
+        }
+      });
       g_in_build = true;
       auto& v = e->build(kname(atoi(t[1].c_str())));
+      returned = true;
       std::string res = vs(v);
       if (canceller.joinable()) canceller.join();
+      if (watchdog_ms >= 0) { struct timespec t1; clock_gettime(CLOCK_MONOTONIC, &t1);
+        printf("elapsed_ms %ld\n", (long)((t1.tv_sec - t0.tv_sec) * 1000 + (t1.tv_nsec - t0.tv_nsec) / 1000000)); }
       for (auto& th : g_threads) th.join();
       g_threads.clear();
       g_in_build = false;
